@@ -11,7 +11,7 @@
 (* over the observed before/after populations; the commit predicates are   *)
 (* those of MergeCommit.tla.                                               *)
 (***************************************************************************)
-EXTENDS Integers, Sequences, FiniteSets, TLC, Json
+EXTENDS MergeGroupsOps, Json
 
 CONSTANT ObsFile
 Obs == ndJsonDeserialize(ObsFile)
@@ -35,6 +35,13 @@ NewFiles(o) == { f \in 1..Len(o.after) : o.after[f].ptr \notin Ptrs(o.before) }
 RemovedPtrs(o) == Ptrs(o.before) \ Ptrs(o.after)
 \* source files of an output file: files of `before` that contributed rows to it
 SourceFiles(o, f) == { b[1] : b \in UNION { Contrib(o, << f, k >>) : k \in 1..Len(o.after[f].blocks) } }
+\* the population the planner met, in the specification's terms (the planner reads the metadata's sizes)
+SpecFiles(o) == [f \in 1..Len(o.before) |->
+                   [b \in 1..Len(o.before[f].blocks) |->
+                      LET x == o.before[f].blocks[b] IN
+                      [part |-> x.part, keys |-> Range(x.keys), rows |-> x.nrows, usize |-> x.msize, dsize |-> x.dsize]]]
+Lims(o) == [mr |-> o.limits.mrg_rows, mb |-> o.limits.mrg_bytes, mf |-> o.limits.max_files, ms |-> o.limits.max_file_size]
+GroupSets(gs) == { { gs[i][x] : x \in 1..Len(gs[i]) } : i \in 1..Len(gs) }
 RECURSIVE SumSet(_, _)
 SumSet(F(_), S) == IF S = {} THEN 0 ELSE LET x == CHOOSE y \in S : TRUE IN F(x) + SumSet(F, S \ {x})
 
@@ -100,6 +107,12 @@ C14_QuerySnapshotSound(o) ==
       /\ Range(o.query.res) \subseteq Range(o.query.acked)
 C14_NothingInvented(o) == o.kind = "query" => Range(o.query.res) \subseteq Range(o.query.acked)
 
+\* conformance of the real planner with its transcription: the sets of source files the real Merge combined are the
+\* groups the specification's planner forms for some order the (unstable) sort may produce (reported as drift)
+DRIFT_FileGroupsAsSpecified(o) ==
+  (o.kind = "plan" /\ o.ret = "nil" /\ Len(o.before) <= 5) =>
+     { SourceFiles(o, f) : f \in NewFiles(o) } \in { GroupSets(FileGroups(Lims(o), SpecFiles(o), ord)) : ord \in SortedOrders(SpecFiles(o)) }
+
 C27_Silent(o) == o.stdio = 0
 
 Props(o) ==
@@ -109,6 +122,7 @@ Props(o) ==
     C13_AllOrNothing |-> C13_AllOrNothing(o), C13_SourcesTombstonedOnlyAfterCommit |-> C13_SourcesTombstonedOnlyAfterCommit(o),
     C13_ReturnTruthful |-> C13_ReturnTruthful(o), C13_SingleFlight |-> C13_SingleFlight(o),
     C14_QuerySnapshotSound |-> C14_QuerySnapshotSound(o), C14_NothingInvented |-> C14_NothingInvented(o),
+    DRIFT_FileGroupsAsSpecified |-> DRIFT_FileGroupsAsSpecified(o),
     C27_Silent |-> C27_Silent(o) ]
 
 Init == l = 1 /\ viol = {}
@@ -119,6 +133,7 @@ Next == /\ l <= N
 Spec == Init /\ [][Next]_vars
 Report == (l = N + 1) => PrintT(<<"MONITOR-REPORT", ToJson([events |-> N, violations |-> viol])>>)
 Stats == (l = N + 1) => PrintT(<<"MONITOR-STATS", ToJson([
+    planner_conformance_checked |-> Cardinality({ i \in 1..N : Obs[i].kind = "plan" /\ Obs[i].ret = "nil" /\ Len(Obs[i].before) <= 5 /\ NewFiles(Obs[i]) # {} }),
     merged |-> Cardinality({ i \in 1..N : Obs[i].kind = "plan" /\ Committed(Obs[i]) }),
     combined |-> Cardinality({ i \in 1..N : \E a \in BlockIds(Obs[i].after) : Cardinality(Contrib(Obs[i], a)) > 1 }),
     faults_reached |-> Cardinality({ i \in 1..N : Obs[i].kind = "fault" /\ Obs[i].reached }),
